@@ -574,7 +574,17 @@ fn network_case(rng: &mut Rng, idx: u64, out: &mut Out) {
     let softmax = obj == Obj::CE && (idx / 7) % 2 == 0;
     let with_block = (idx / 14) % 3 == 0;
     let via_learn = (idx / 42) % 3 == 0;
-    let cfg = c01_net(rng, obj, with_block, softmax);
+    let mut cfg = c01_net(rng, obj, with_block, softmax);
+    // dropout rates configured on random layers: they concern the forward passes of training
+    // only, the hooked backward pass of a network that is not in training mode must ignore them
+    if !via_learn && (idx / 5) % 4 == 2 {
+        for l in cfg.layers.iter_mut() {
+            if rng.chance(0.4) {
+                l.set_dropout(Some(*rng.pick(&[0.3f32, 0.5, 0.9])));
+            }
+        }
+        out.count("network_cases_with_dropout_rates_configured", 1);
+    }
     out.key = format!("{} {} {}", obj.name(), if via_learn { "learn-step" } else { "backward" }, cfg.describe());
     out.cover("architectures", cfg.architecture());
     out.cover("objectives", format!("{}{}", obj.name(), if softmax { "+softmax" } else { "" }));
